@@ -129,10 +129,15 @@ def shards(tier, seed):
         items.append({"what": "wiring", "n": 150 if tier == "quick" else 1500, "seed": seed * 1000 + i})
     # biggest first for load balance
     items.sort(key=lambda it: -(it.get("ways", 0) ** 3 if it["what"] == "explore" else 1))
+    for i in range(2 if tier == "quick" else 8):
+        items.append({"what": "machine", "n": 60 if tier == "quick" else 800, "seed": seed * 1000 + 900 + i})
     return items
 
 
 def run_shard(item, stats):
+    if item.get("what") == "machine":
+        from vf import machines
+        return machines.machine_search(machines.cache_machine(stats, ('resident',), 'eviction', True), stats, item["n"], item["seed"])
     km = core.known_matcher(ID, globals().get("known_match"))
     if item["what"] == "explore":
         try:
